@@ -429,6 +429,66 @@ Proof.
       split; [exact HP3 | constructor; [apply Hq | apply Forall_app; split; assumption]].
 Qed.
 
+
+Lemma combine_map_in {X Y Z} (f : Y -> Z) (xs : list X) : forall (es : list Y) x t,
+  In (x, t) (combine xs (map f es)) -> exists e, In (x, e) (combine xs es) /\ t = f e.
+Proof.
+  induction xs as [|a xs IH]; intros [|e es] x t Hin; cbn in Hin; try contradiction.
+  destruct Hin as [H|H].
+  - inversion H; subst. exists e. split; [left; reflexivity | reflexivity].
+  - destruct (IH es x t H) as (e0 & H1 & H2). exists e0. split; [right; exact H1 | exact H2].
+Qed.
+
+Lemma combine_fst {X Y} (xs : list X) : forall (ts : list Y), length xs = length ts -> map fst (combine xs ts) = xs.
+Proof.
+  induction xs as [|a xs IH]; intros [|t ts] H; cbn in *; try discriminate; [reflexivity|].
+  f_equal. apply IH. lia.
+Qed.
+
+Lemma tlookup_fold_tset_pairs (L : tenv) xts : forall G x,
+  (forall y t, In (y, t) xts -> tlookup y L = Some t) ->
+  tlookup x (fold_left (fun G0 (xt : ident * ty) => tset G0 (fst xt) (snd xt)) xts G) =
+    match tlookup x xts with Some t => Some t | None => tlookup x G end.
+Proof.
+  induction xts as [|[y u] r IH]; intros G x HL; [reflexivity|].
+  cbn [fold_left fst snd tlookup]. rewrite IH by (intros z t Hz; apply HL; right; exact Hz).
+  rewrite tlookup_tset. destruct (text_eqb x y) eqn:E; [|reflexivity].
+  apply text_eqb_eq in E. subst y. destruct (tlookup x r) as [t|] eqn:Er; [|reflexivity].
+  apply tlookup_In in Er. pose proof (HL x t (or_intror Er)) as H1. pose proof (HL x u (or_introl eq_refl)) as H2.
+  rewrite H1 in H2. exact H2.
+Qed.
+
+Lemma wf_same_ctx0 L outer base st st' :
+  wf L outer base st -> d_types (st_ctx st') = d_types (st_ctx st) -> d_decl (st_ctx st') = d_decl (st_ctx st) ->
+  st_decls st' = st_decls st -> wf L outer base st'.
+Proof.
+  intros [Hs Hl Hd Ho Hf Hb] HG Hdc Hds. constructor; rewrite ?HG, ?Hdc, ?Hds; assumption.
+Qed.
+
+Definition tuple_step_fn := fun (acc0 : list ident * list (ident * cty)) (xt : ident * ty) =>
+  if tmem (fst xt) (fst acc0) then acc0
+  else (fst acc0 ++ [fst xt], snd acc0 ++ [(fst xt, cpp_type (snd xt))]).
+
+Lemma tuple_fold_wf L outer base ds0 p a : forall xts G decl nd,
+  wf L outer base (mk_bstate (mk_dctx G decl p) (ds0 ++ nd) a) ->
+  (forall x t, In (x, t) xts -> tlookup x L = Some t) ->
+  wf L outer base
+     (mk_bstate (mk_dctx (fold_left (fun G0 (xt : ident * ty) => tset G0 (fst xt) (snd xt)) xts G)
+                         (fst (fold_left tuple_step_fn xts (decl, nd))) p)
+                (ds0 ++ snd (fold_left tuple_step_fn xts (decl, nd))) a).
+Proof.
+  induction xts as [|[x t] r IH]; intros G decl nd Hw HL; [exact Hw|].
+  cbn [fold_left]. unfold tuple_step_fn at 2 4. cbn [fst snd].
+  pose proof (wf_store L outer base _ x t p a Hw (HL x t (or_introl eq_refl))) as Hw1.
+  cbn [st_ctx st_decls d_types d_decl] in Hw1.
+  destruct (tmem x decl).
+  - apply IH; [exact Hw1 | intros y u Hy; apply HL; right; exact Hy].
+  - rewrite <- app_assoc in Hw1. apply IH; [exact Hw1 | intros y u Hy; apply HL; right; exact Hy].
+Qed.
+
+Lemma firstn_len_eq {X} (n : nat) (l : list X) : n = length l -> firstn n l = l.
+Proof. intros ->. apply firstn_all. Qed.
+
 Section Ctl.
   Variable S : Type.
   Variable call : list ident -> (S * option pmap) -> tenv -> ident -> list ty -> (S * option pmap) * option ty.
@@ -593,6 +653,112 @@ Section Ctl.
     rewrite Hcl in Hrun.
     pose proof (wf_store L outer base st x t p2 (add_label (st_acc st) x t) Hw HL) as Hw1.
     destruct (tmem x (d_decl (st_ctx st))); inversion Hrun; subst s1 st1; (split; [exact Hi | split; [exact Hw1 | split; reflexivity]]).
+  Qed.
+
+
+  (* ---- x1, x2, ... = e1, e2, ... *)
+  Lemma infer_ds_guarded : forall es s c, Inv s ->
+    (forall e, In e es -> guard F A C (d_types c) e = true) ->
+    match infer_ds S call C s c es with
+    | Some (ts, c1, s1) => Inv s1 /\ ts = map (ety F A C (d_types c)) es /\ d_types c1 = d_types c /\ d_decl c1 = d_decl c
+    | None => True
+    end.
+  Proof.
+    induction es as [|e r IH]; intros s c Hs Hg; cbn [infer_ds].
+    - repeat split; [exact Hs].
+    - pose proof (infer_d_guarded s c e Hs (Hg e (or_introl eq_refl))) as H1.
+      destruct (infer_d S call C s c e) as [[[t c1] s1]|]; [|exact I].
+      destruct H1 as (Hs1 & Ht & HG & Hd).
+      assert (Hg1 : forall e0, In e0 r -> guard F A C (d_types c1) e0 = true) by (intros e0 H0; rewrite HG; apply Hg; right; exact H0).
+      specialize (IH s1 c1 Hs1 Hg1).
+      destruct (infer_ds S call C s1 c1 r) as [[[ts c2] s2]|]; [|exact I].
+      destruct IH as (Hs2 & Hts & HG2 & Hd2). split; [exact Hs2|]. split; [cbn [map]; rewrite Ht, Hts, HG; reflexivity|].
+      split; congruence.
+  Qed.
+
+  Definition tuple_ok (L G : tenv) (xs : list ident) (es : list pexpr) : bool :=
+    Nat.eqb (length xs) (length es) && forallb (fun xe => assign_ok C F A L G (fst xe) (snd xe)) (combine xs es).
+
+  Lemma tuple_step glob L outer base s st xs es s1 st1 :
+    Inv s -> wf L outer base st ->
+    tuple_ok L (d_types (st_ctx st)) xs es = true ->
+    do_tuple S call C glob s st xs es = Some (s1, st1) ->
+    Inv s1 /\ wf L outer base st1 /\ a_rets (st_acc st1) = a_rets (st_acc st) /\ a_fn (st_acc st1) = a_fn (st_acc st).
+  Proof.
+    intros Hs Hw Hok Hrun. unfold tuple_ok in Hok. apply andb_true_iff in Hok as [Hlen Hall].
+    apply Nat.eqb_eq in Hlen. rewrite forallb_forall in Hall.
+    unfold do_tuple in Hrun. rewrite (firstn_len_eq (length xs) es Hlen) in Hrun.
+    rewrite <- Hlen, Nat.ltb_irrefl in Hrun.
+    assert (Hg : forall e, In e es -> guard F A C (d_types (st_ctx st)) e = true).
+    { intros e He. destruct (In_nth_error _ _ He) as [n Hn].
+      assert (Hx : exists x, In (x, e) (combine xs es)).
+      { clear - Hlen Hn. revert xs Hlen n Hn. induction es as [|e0 r IH]; intros [|x xs] Hlen n Hn; cbn in *; try discriminate.
+        - destruct n; discriminate.
+        - destruct n as [|n]; cbn in Hn.
+          + inversion Hn; subst. exists x. left; reflexivity.
+          + destruct (IH xs ltac:(lia) n Hn) as [y Hy]. exists y. right; exact Hy. }
+      destruct Hx as [x Hx]. specialize (Hall _ Hx). cbn [fst snd] in Hall. unfold assign_ok in Hall.
+      destruct (tlookup x L) as [t0|]; [|discriminate]. destruct (expr_ok_parts _ _ _ _ Hall) as (H1 & _). exact H1. }
+    pose proof (infer_ds_guarded es s (st_ctx st) Hs Hg) as Hi.
+    destruct (infer_ds S call C s (st_ctx st) es) as [[[ts c1] s2]|]; [|discriminate].
+    destruct Hi as (Hs2 & Hts & HG & Hd). rewrite HG, Hd in Hrun.
+    assert (HL : forall x t, In (x, t) (combine xs ts) -> tlookup x L = Some t).
+    { intros x t Hin. rewrite Hts in Hin. apply combine_map_in in Hin as (e & Hin & ->).
+      specialize (Hall _ Hin). cbn [fst snd] in Hall. unfold assign_ok in Hall.
+      destruct (tlookup x L) as [t0|]; [|discriminate]. f_equal. destruct (expr_ok_parts _ _ _ _ Hall) as (_ & _ & H3 & _). symmetry. exact H3. }
+    assert (Hlts : length xs = length ts) by (rewrite Hts, map_length; exact Hlen).
+    destruct (forallb (fun x => negb (tmem x (d_decl (st_ctx st)))) xs && glob) eqn:Eg.
+    - inversion Hrun; subst s1 st1. clear Hrun. cbn [st_acc a_rets a_fn].
+      split; [exact Hs2|]. split; [|split; reflexivity].
+      apply andb_true_iff in Eg as [Enew _]. rewrite forallb_forall in Enew.
+      apply (wf_promote2 L outer base st _ _ _ _ _ (combine xs ts) Hw).
+      + intros x t Hin. split; [|apply HL; exact Hin]. apply in_combine_l in Hin as Hx. apply negb_true_iff. apply Enew; exact Hx.
+      + intro x. apply (tlookup_fold_tset_pairs L). exact HL.
+      + intro x. rewrite tmem_add_names, (combine_fst xs ts Hlts). reflexivity.
+      + intro x. apply tlookup_map_snd.
+      + intro x. rewrite map_map. cbn [fst]. intro H; exact H.
+    - fold tuple_step_fn in Hrun.
+      destruct (fold_left tuple_step_fn (combine xs ts) (d_decl (st_ctx st), [])) as [decl2 nd] eqn:Ef.
+      inversion Hrun; subst s1 st1. clear Hrun. cbn [st_acc a_rets a_fn].
+      split; [exact Hs2|]. split; [|split; reflexivity].
+      pose proof (tuple_fold_wf L outer base (st_decls st) (d_promo c1) (st_acc st) (combine xs ts) (d_types (st_ctx st)) (d_decl (st_ctx st)) []) as H.
+      rewrite Ef in H. cbn [fst snd] in H.
+      eapply wf_same_ctx0; [apply H; [|exact HL]|reflexivity|reflexivity|reflexivity].
+      rewrite app_nil_r. eapply wf_same_ctx0; [exact Hw | reflexivity | reflexivity | reflexivity].
+  Qed.
+
+  (* the temporaries of a tuple assignment: the k-th one is declared from the label L gives the k-th target *)
+  Lemma tuple_temps_typed L s st xs es s1 st1 :
+    Inv s -> tuple_ok L (d_types (st_ctx st)) xs es = true ->
+    do_tuple S call C false s st xs es = Some (s1, st1) ->
+    exists ts, a_labels (st_acc st1) = a_labels (st_acc st) ++ map (fun t => (tmp_marker, t)) ts ++ combine xs ts /\
+               Forall2 (fun x t => tlookup x L = Some t) xs ts.
+  Proof.
+    intros Hs Hok Hrun. unfold tuple_ok in Hok. apply andb_true_iff in Hok as [Hlen Hall].
+    apply Nat.eqb_eq in Hlen. rewrite forallb_forall in Hall.
+    unfold do_tuple in Hrun. rewrite (firstn_len_eq (length xs) es Hlen) in Hrun.
+    rewrite <- Hlen, Nat.ltb_irrefl in Hrun.
+    assert (Hg : forall e, In e es -> guard F A C (d_types (st_ctx st)) e = true).
+    { intros e He. destruct (In_nth_error _ _ He) as [n Hn].
+      assert (Hx : exists x, In (x, e) (combine xs es)).
+      { clear - Hlen Hn. revert xs Hlen n Hn. induction es as [|e0 r IH]; intros [|x xs] Hlen n Hn; cbn in *; try discriminate.
+        - destruct n; discriminate.
+        - destruct n as [|n]; cbn in Hn.
+          + inversion Hn; subst. exists x. left; reflexivity.
+          + destruct (IH xs ltac:(lia) n Hn) as [y Hy]. exists y. right; exact Hy. }
+      destruct Hx as [x Hx]. specialize (Hall _ Hx). cbn [fst snd] in Hall. unfold assign_ok in Hall.
+      destruct (tlookup x L) as [t0|]; [|discriminate]. destruct (expr_ok_parts _ _ _ _ Hall) as (H1 & _). exact H1. }
+    pose proof (infer_ds_guarded es s (st_ctx st) Hs Hg) as Hi.
+    destruct (infer_ds S call C s (st_ctx st) es) as [[[ts c1] s2]|]; [|discriminate].
+    destruct Hi as (_ & Hts & _ & _). rewrite andb_false_r in Hrun.
+    destruct (fold_left _ (combine xs ts) (d_decl c1, [])) as [decl2 nd]. inversion Hrun; subst s1 st1. clear Hrun.
+    exists ts. cbn [st_acc a_labels]. split; [reflexivity|].
+    subst ts. clear - Hlen Hall. revert es Hlen Hall. induction xs as [|x xr IH]; intros [|e er] Hlen Hall; cbn in Hlen; try discriminate.
+    - constructor.
+    - cbn [map]. constructor.
+      + specialize (Hall (x, e) (or_introl eq_refl)). cbn [fst snd] in Hall. unfold assign_ok in Hall.
+        destruct (tlookup x L) as [t0|]; [|discriminate]. f_equal. destruct (expr_ok_parts _ _ _ _ Hall) as (_ & _ & H3 & _). symmetry. exact H3.
+      + apply IH; [lia|]. intros xe Hin. apply Hall. right. exact Hin.
   Qed.
 
   (* ---- return e *)
@@ -847,7 +1013,9 @@ Section Ctl.
     - (* SAssignR *) intros x r L outer base s st s1 st1 Hs Hw Hg Hrun.
       destruct (assignr_step L outer base s st x r s1 st1 Hs Hw Hg Hrun) as (H1 & H2 & H3 & H4).
       split; [exact H1 | split; [exact H2 | apply keeps_eq; assumption]].
-    - (* STuple *) intros xs es L outer base s st s1 st1 Hs Hw Hg Hrun. discriminate Hg.
+    - (* STuple *) intros xs es L outer base s st s1 st1 Hs Hw Hg Hrun.
+      destruct (tuple_step false L outer base s st xs es s1 st1 Hs Hw Hg Hrun) as (H1 & H2 & H3 & H4).
+      split; [exact H1 | split; [exact H2 | apply keeps_eq; assumption]].
     - (* BNil *) intros L outer base s st s1 st1 Hs Hw Hg Hrun. inversion Hrun; subst.
       split; [exact Hs | split; [exact Hw | apply keeps_refl]].
     - (* BCons *) intros x Hx r Hr. apply PM_bcons; assumption.
@@ -883,6 +1051,27 @@ Section Ctl.
     destruct (typed_some _ _ (expr_ok_typed _ _ _ _ Hok)) as [G1 Hi]. rewrite HtL in Hi.
     destruct (infer_s_sound _ _ _ _ _ _ _ _ _ (env_lab_sound _ _ Hrho) HgL Hi Hev) as [Hr _].
     split; [eapply env_lab_bind; eassumption | exists t; split; assumption].
+  Qed.
+
+
+  Lemma tuple_sem L G rho0 : env_lab L rho0 -> forall xs es vs rho,
+    length xs = length es ->
+    forallb (fun xe => assign_ok C F A L G (fst xe) (snd xe)) (combine xs es) = true ->
+    evals rho0 es = Ok vs -> env_lab L rho ->
+    env_lab L (bind_all xs vs rho) /\
+    Forall (ev_ok L []) (map (fun xv => TAssign (fst xv) (snd xv)) (combine xs vs)).
+  Proof.
+    intros Hr0. induction xs as [|x xr IH]; intros [|e er] vs rho Hlen Hall Hev Hrho; cbn in Hlen; try discriminate.
+    - cbn in Hev. inversion Hev; subst. cbn. split; [exact Hrho | constructor].
+    - cbn [combine forallb fst snd] in Hall. apply andb_true_iff in Hall as [Hok Hall].
+      cbn [evals] in Hev. destruct (peval rho0 e) as [v|] eqn:Ev; [|discriminate].
+      destruct (evals rho0 er) as [vr|] eqn:Er; [|discriminate]. inversion Hev; subst vs.
+      unfold assign_ok in Hok. destruct (tlookup x L) as [t|] eqn:HL; [|discriminate].
+      destruct (store_sound L G x e t rho0 v HL Hok Hr0 Ev) as [_ (t1 & Ht1 & Hrepr)].
+      rewrite HL in Ht1. inversion Ht1; subst t1.
+      cbn [bind_all combine map fst snd].
+      destruct (IH er vr ((x, v) :: rho) ltac:(lia) Hall Er (env_lab_bind L rho x v t Hrho HL Hrepr)) as [H1 H2].
+      split; [exact H1 | constructor; [exists t; split; assumption | exact H2]].
   Qed.
 
   Lemma PS_bcons x r : PS_stmt x -> PS_block r -> PS_block (BCons x r).
@@ -1056,7 +1245,12 @@ Section Ctl.
       cbn [exec_stmt] in Hex. destruct (eval_rhs rho r) as [v|] eqn:Ev; [|discriminate]. inversion Hex; subst.
       destruct (rhs_sound F A C r _ _ _ _ _ (env_lab_sound _ _ Hrho) HgL Ei Ev) as [Hr _].
       split; [eapply env_lab_bind; eassumption | constructor; [|constructor]]. exists t. split; assumption.
-    - (* STuple *) intros xs es L outer base s st s1 st1 orc rho orc1 rho1 tr ret Hs Hw Hg. discriminate Hg.
+    - (* STuple *) intros xs es L outer base s st s1 st1 orc rho orc1 rho1 tr ret Hs Hw Hg Hrun Hrho Hex.
+      cbn [gd_stmt] in Hg. apply andb_true_iff in Hg as [Hlen Hall]. apply Nat.eqb_eq in Hlen.
+      cbn [exec_stmt] in Hex. rewrite Hlen, Nat.eqb_refl in Hex. cbn [negb] in Hex.
+      destruct (evals rho es) as [vs|] eqn:Ev; [|discriminate]. inversion Hex; subst.
+      destruct (tuple_sem L _ rho Hrho xs es vs rho Hlen Hall Ev Hrho) as [H1 H2].
+      split; [exact H1|]. eapply Forall_impl; [|exact H2]. intro e. apply ev_ok_mono. intros y [].
     - (* BNil *) intros L outer base s st s1 st1 orc rho orc1 rho1 tr ret Hs Hw Hg Hrun Hrho Hex.
       cbn [exec_block] in Hex. inversion Hex; subst. split; [exact Hrho | constructor].
     - intros x Hx r Hr. apply PS_bcons; assumption.
@@ -1095,9 +1289,6 @@ Lemma run_item_stmt C ps s : is_tuple s = false ->
     end.
 Proof. destruct s; intro H; try discriminate H; reflexivity. Qed.
 
-Lemma gd_not_tuple (S : Type) call C F A L (s : S) st x : gd_stmt S call C F A L s st x = true -> is_tuple x = false.
-Proof. destruct x; intro H; try reflexivity. discriminate H. Qed.
-
 Definition ev_lab (L : tenv) (e : tev) : Prop := exists R, ev_ok L R e.
 
 Lemma stmt_item_step C L ps s ps1 :
@@ -1108,7 +1299,23 @@ Lemma stmt_item_step C L ps s ps1 :
     env_lab L rho1 /\ Forall (ev_lab L) tr.
 Proof.
   intros Hnf Hw Hg Hrun. cbn [item_gd] in Hg. fold (bst ps (p_globals ps)) in Hg.
-  rewrite (run_item_stmt C ps s (gd_not_tuple _ _ _ _ _ _ _ _ _ Hg)) in Hrun.
+  destruct (is_tuple s) eqn:Et.
+  { destruct s as [| | | | | | |xs es]; try discriminate Et. clear Et.
+    cbn [run_item] in Hrun. fold (bst ps (p_globals ps)) in Hrun.
+    destruct (do_tuple fenv (call_dyn C) C true (p_fe ps) (bst ps (p_globals ps)) xs es) as [[fe1 st1]|] eqn:E; [|discriminate].
+    destruct (fe_err fe1); [discriminate|]. inversion Hrun; subst ps1. clear Hrun.
+    cbn [gd_stmt] in Hg.
+    destruct (tuple_step fenv (call_dyn C) C [] [] nofun (dyn_call_ok C) true L [] [] _ _ xs es fe1 st1 Hnf Hw Hg E) as (Hnf1 & Hw1 & _).
+    split.
+    - cbn [p_fe p_ctx p_globals p_loop p_labels]. split; [exact Hnf1|]. split; [|reflexivity].
+      unfold bst. cbn [p_ctx p_globals p_labels]. eapply wf_same_ctx; [exact Hw1 | reflexivity | reflexivity | reflexivity].
+    - intros orc rho orc1 rho1 tr ret Hrho Hex.
+      apply andb_true_iff in Hg as [Hlen Hall]. apply Nat.eqb_eq in Hlen.
+      cbn [exec_stmt] in Hex. rewrite Hlen, Nat.eqb_refl in Hex. cbn [negb] in Hex.
+      destruct (evals rho es) as [vs|] eqn:Ev; [|discriminate]. inversion Hex; subst.
+      destruct (tuple_sem C [] [] L _ rho Hrho xs es vs rho Hlen Hall Ev Hrho) as [H1 H2].
+      split; [exact H1|]. eapply Forall_impl; [|exact H2]. intros e He. exists []. exact He. }
+  rewrite (run_item_stmt C ps s Et) in Hrun.
   destruct (run_stmt fenv (call_dyn C) C (p_fe ps) (bst ps (p_globals ps)) s) as [[fe1 st1]|] eqn:E; [|discriminate].
   destruct (fe_err fe1); [discriminate|]. inversion Hrun; subst ps1. clear Hrun.
   destruct (proj1 (model_keeps_wf fenv (call_dyn C) C [] [] nofun (dyn_call_ok C)) s L [] [] _ _ _ _ Hnf Hw Hg E) as (Hnf1 & Hw1 & _).
@@ -1407,3 +1614,29 @@ Theorem stored_values_within_final_labels :
       env_lab L rho -> exec_stmt orc rho x = Ok (orc1, rho1, tr, ret) ->
       env_lab L rho1 /\ Forall (ev_ok L (a_rets (st_acc st1))) tr.
 Proof. intros S call C F A Inv Hcall. exact (proj1 (values_within_labels S call C F A Inv Hcall)). Qed.
+
+Lemma demo_tuple_nonvacuous :
+  script_guard None demo_tuple_pre BNil = true /\
+  (exists ps, run_items None (script_items demo_tuple_pre BNil) = Some ps /\
+              p_globals ps = [(w_a, CInt); (w_b, CFloat); (w_x, CFloat)] /\
+              map snd (filter (fun xt => text_eqb (fst xt) tmp_marker) (p_labels ps)) = [TInt; TFloat; TFloat; TFloat]) /\
+  (exists rho tr, exec_prog [1]%nat demo_tuple_pre BNil = Ok ([], rho, tr, false) /\ In (TAssign w_b (VFloat 5)) tr).
+Proof.
+  split; [vm_compute; reflexivity|]. split.
+  - eexists. split; [vm_compute; reflexivity | split; vm_compute; reflexivity].
+  - eexists. eexists. split; [vm_compute; reflexivity|]. cbn. tauto.
+Qed.
+
+Theorem tuple_temporaries_typed :
+  forall (S : Type) call C F A (Inv : S -> Prop),
+    (forall d sp G f sg, Inv (fst sp) ->
+       Inv (fst (fst (call d sp G f sg))) /\ snd (call d sp G f sg) = resolve_call F A f sg) ->
+    forall L s st xs es s1 st1,
+      Inv s -> gd_stmt S call C F A L s st (STuple xs es) = true ->
+      run_stmt S call C s st (STuple xs es) = Some (s1, st1) ->
+      exists ts, a_labels (st_acc st1) = a_labels (st_acc st) ++ map (fun t => (tmp_marker, t)) ts ++ combine xs ts /\
+                 Forall2 (fun x t => tlookup x L = Some t) xs ts.
+Proof.
+  intros S call C F A Inv Hcall L s st xs es s1 st1 Hs Hg Hrun.
+  exact (tuple_temps_typed S call C F A Inv Hcall L s st xs es s1 st1 Hs Hg Hrun).
+Qed.
